@@ -246,18 +246,20 @@ def run(ctx):
     if err:
         ctx.violation({"broken": "correspondence-evaluation", "detail": err[-2000:]}, found_input=False)
         return
-    reported = 0
-    for i in bad[:50]:
+    # report concrete failing inputs first (shortest first), then at most one model/implementation difference
+    # on which the documented-grammar oracle agrees with the implementation
+    with_input = sorted([i for i in bad if i >= 0 and ref_infer(meta[i][1], meta[i][0]) != meta[i][3]], key=lambda i: len(meta[i][1]))
+    without = [i for i in bad if i >= 0 and i not in set(with_input)]
+    for i in with_input[:3]:
         f, s, sc, o = meta[i]
         r = ref_infer(s, f)
-        if r != o:
-            reported += ctx.violation({"broken": "correspondence C06.Harness.chk", "flag": f, "input_hex": s.hex(), "input": s.decode("latin1"),
-                                       "observed": o, "observed_scan": sc, "expected_by_grammar": r, "class": classify_witness(s, o, r)}) and 1 or 0
-        else:
-            reported += ctx.violation({"broken": "correspondence C06.Harness.chk (model and implementation differ; documented-grammar oracle agrees with the implementation)",
-                                       "flag": f, "input_hex": s.hex(), "observed": o, "observed_scan": sc}, found_input=False) and 1 or 0
-        if reported >= 3:
-            break
+        ctx.violation({"broken": "correspondence C06.Harness.chk", "flag": f, "input_hex": s.hex(), "input": s.decode("latin1"),
+                       "observed": o, "observed_scan": sc, "expected_by_grammar": r, "class": classify_witness(s, o, r),
+                       "mismatching_cases": len(bad)})
+    if without and not with_input:
+        f, s, sc, o = meta[without[0]]
+        ctx.violation({"broken": "correspondence C06.Harness.chk (model and implementation differ, e.g. in the scan type; the documented-grammar oracle agrees with the implementation's inferred value)",
+                       "flag": f, "input_hex": s.hex(), "observed": o, "observed_scan": sc, "mismatching_cases": len(bad)}, found_input=False)
     # oracle disagreements the correspondence did not see (cannot happen unless the model itself is off-grammar)
     for f, s, o, r in oracle_bad[:3]:
         if not any(meta[i][0] == f and meta[i][1] == s for i in bad):
@@ -311,15 +313,23 @@ def cli_contexts(ctx):
                 ctx.violation({"broken": "single-classification", "flag": flagname, "input": v.decode("latin1"), "row": row, "inferred": m,
                                "how": "mlr %s --ojson put '%s'" % (" ".join(flagargs), prog)})
                 return
-    # JSON string vs JSON number
-    doc = b'[{"s":"123","n":123,"h":"0xff","f":1.5,"fs":"1.5","e":1e3}]'
-    rc, out, err = sh([ctx.mlr(), "--json", "put", "-q", 'print typeof($s).",".typeof($n).",".typeof($h).",".typeof($f).",".typeof($fs).",".typeof($e)'], inp=doc, binary=True, timeout=60)
-    ctx.count(("cli", "json"))
-    got = (out.decode().splitlines() or [""])[0].strip()
-    ctx.cov["json_context"] = got
-    if got != "string,int,string,float,string,float":
-        ctx.violation({"broken": "json-context", "input": doc.decode(), "observed": got, "expected": "string,int,string,float,string,float",
-                       "note": "JSON string values are never inferred while JSON numbers are"})
+    # JSON string vs JSON number, under every inference flag, top level and nested, and through json_parse
+    doc = b'[{"s":"123","n":123,"h":"0xff","f":1.5,"fs":"1.5","e":1e3,"neg":-7,"z":0,"arr":[1,2.5,"3"],"m":{"k":4,"ks":"4"}}]'
+    prog = ('print typeof($s).",".typeof($n).",".typeof($h).",".typeof($f).",".typeof($fs).",".typeof($e).",".typeof($neg).",".typeof($z)'
+            '.",".typeof($arr[1]).",".typeof($arr[2]).",".typeof($arr[3]).",".typeof($m["k"]).",".typeof($m["ks"])'
+            '.",".typeof(json_parse("{\\"q\\":5}")["q"]).",".typeof(json_parse("{\\"q\\":5.5}")["q"])')
+    for flagname, flagargs in (("default", []), ("S", ["-S"]), ("A", ["-A"]), ("O", ["-O"])):
+        rc, out, err = sh([ctx.mlr()] + flagargs + ["--json", "put", "-q", prog], inp=doc, binary=True, timeout=60)
+        ctx.count(("cli", "json", flagname))
+        got = (out.decode("utf-8", "replace").splitlines() or [""])[0].strip()
+        ctx.cov.setdefault("json_context", {})[flagname] = got
+        num = lambda t: {"int": "int", "float": "float", "string": "string", "empty": "empty"}[impl_infer(ctx, [t], flagname)[0][0]]
+        want = ",".join(["string", num(b"123"), "string", num(b"1.5"), "string", num(b"1e3"), num(b"-7"), num(b"0"),
+                         num(b"1"), num(b"2.5"), "string", num(b"4"), "string", num(b"5"), num(b"5.5")])
+        if got != want:
+            ctx.violation({"broken": "json-context", "flag": flagname, "input": doc.decode(), "program": prog, "observed": got, "expected": want,
+                           "note": "JSON string values are never inferred while JSON numbers are inferred by the same single classification as data fields (under -S/-A/-O too)",
+                           "how": "mlr %s --json put -q '<program>' < doc" % " ".join(flagargs)})
     # DSL literals
     rc, out, err = sh([ctx.mlr(), "-n", "put", 'end{print typeof(123).",".typeof(0xff).",".typeof(1.5).",".typeof(1e3).",".typeof("123").",".typeof(0o17).",".typeof(-5)}'], timeout=60)
     ctx.count(("cli", "dsl"))
